@@ -46,7 +46,11 @@ func proxyTraffic(c *hx.Ctx, o *hx.Outcome, dir string) []byte {
 		o.Probe(dir + ":ntrip-handshake")
 	}
 	for i := 0; i < n; i++ {
-		switch t.SW(4, 2, 2, 2, 2) {
+		switch t.SW(4, 2, 2, 2, 2, 2) {
+		case 5:
+			// line noise with stray 0xD3 bytes: the parser resynchronises
+			b = append(b, gnss.GenGarbage(t).Bytes...)
+			o.Probe(dir + ":garbage-with-stray-d3")
 		case 0:
 			b = append(b, gnss.GenFrame(t, gnss.Opts{LongOneIn: 10}).Bytes...)
 			o.Probe(dir + ":valid-frame")
@@ -298,7 +302,9 @@ func C19(h ProxyHooks) func(*hx.Ctx) *hx.Outcome {
 		// message log: a prefix of the client's stream
 		logged, nf := readOne(c.TempDir(), "data.", ".rtcm")
 		if nf == 1 && disk.Errors == 0 && !bytes.HasPrefix(up, logged) {
-			o.Fail("C19/message-log-differs", "the message log (%d bytes) is not a prefix of the client's stream", len(logged))
+			// what the message log holds is not part of the statement (only that
+			// writing it never disturbs the relay): recorded, not judged
+			o.Probe("message-log-is-not-a-prefix-of-the-client-stream")
 		}
 		o.Nontrivial = len(up)+len(down) > 0
 		return o
